@@ -490,10 +490,13 @@ static inline std::vector<fn> init_eval_double()
         return tmp;
     };
     table[SYMENGINE_POW] = [](const Basic &x) {
-        double a = eval_double_single_dispatch(
-            *(down_cast<const Pow &>(x)).get_base());
         double b = eval_double_single_dispatch(
             *(down_cast<const Pow &>(x)).get_exp());
+        if (eq(*(down_cast<const Pow &>(x)).get_base(), *E)) {
+            return ::exp(b);
+        }
+        double a = eval_double_single_dispatch(
+            *(down_cast<const Pow &>(x)).get_base());
         return ::pow(a, b);
     };
     table[SYMENGINE_SIN] = [](const Basic &x) {
